@@ -58,7 +58,8 @@ def assign_registers(data: CodeData, code: list[IC10Instruction]):
             scope = ".".join(scopes)
             called_from[fname].add(scope)
 
-    module_names = set(data.modules.keys())
+    # keep the order of the modules as given, the result must not depend on set iteration order
+    module_names = list(data.modules.keys())
     for name in called_from:
         if name == "":
             continue
@@ -69,8 +70,7 @@ def assign_registers(data: CodeData, code: list[IC10Instruction]):
         called_from[module] = added_modules.copy()
         added_modules.add(module)
 
-    all_scopes = set(data.functions.keys())
-    all_scopes.update(data.symbols.keys())
+    all_scopes = list(dict.fromkeys([*data.functions.keys(), *data.symbols.keys()]))
 
     # print("called_from")
     # for k, v in called_from.items():
@@ -78,7 +78,9 @@ def assign_registers(data: CodeData, code: list[IC10Instruction]):
 
     sorted_scopes = []
     while len(sorted_scopes) < len(all_scopes):
-        for scope in all_scopes - set(sorted_scopes):
+        for scope in all_scopes:
+            if scope in sorted_scopes:
+                continue
             if called_from.get(scope, set()).issubset(set(sorted_scopes)):
                 sorted_scopes.append(scope)
                 break
